@@ -62,7 +62,14 @@ pub fn simple_id(name: &str, port: u16) -> ChitchatId {
 pub fn feed(cc: &mut Chitchat, bytes: &[u8]) -> Result<Option<(ChitchatMessage, Vec<u8>)>, String> {
     match catch(|| feed_inner(cc, bytes)) {
         Ok(r) => r,
-        Err(p) => Err(format!("PANIC in the crate under test: {p}")),
+        Err(p) => {
+            // remembered globally: a caller that drops this error must not make the panic disappear (see finish())
+            let mut fp = FEED_PANICS.lock().unwrap();
+            if fp.len() < 16 {
+                fp.push(p.clone());
+            }
+            Err(format!("PANIC in the crate under test: {p}"))
+        }
     }
 }
 
